@@ -32,6 +32,8 @@ JudgeChecked(tag, rt, exact, out, res) ==
     IN
     IF out \in {"ub:SIGILL", "ub:SIGFPE", "ub:SIGSEGV", "ub:SIGBUS", "ub:signal"} THEN "ub"
     ELSE IF out = "timeout" THEN "timeout"
+    \* an exception that is not std::overflow_error (the recorder catches overflow_error first, then std::exception)
+    ELSE IF out \in {"throw_other:positive overflow", "throw_other:negative overflow", "throw_other:?"} THEN "wrong_exception_type"
     ELSE IF out # "ok" /\ ~isTrap /\ ~isThrow THEN "unreachable"
     ELSE IF side = "none" THEN
         (IF out # "ok" THEN "false_overflow"
